@@ -316,6 +316,9 @@ type Property[C any] struct {
 	Run func(c C, ev *Evid) []Finding
 	// Fixed cases (boundary tables, saved minimal repros) that always run first.
 	Fixed func() []C
+	// Pre runs before the generated search (exhaustive enumerations); it returns a failing case
+	// and its findings, or no findings.
+	Pre func(ev *Evid) (C, []Finding)
 }
 
 type replayFile[C any] struct {
@@ -452,6 +455,15 @@ func RunProperty[C any](t *testing.T, p Property[C]) {
 			ev.Class("fixed-case")
 			fs, _ := ev.filterKnown(safeRun(p, c, ev))
 			if len(fs) > 0 {
+				report(c, fs, "")
+				t.Fail()
+				return
+			}
+		}
+	}
+	if p.Pre != nil {
+		if c, fs := p.Pre(ev); len(fs) > 0 {
+			if fs, _ = ev.filterKnown(fs); len(fs) > 0 {
 				report(c, fs, "")
 				t.Fail()
 				return
